@@ -154,7 +154,7 @@ type Driver interface {
 	// (the goroutine waits for a lock that one of its own outer frames holds). nil-able: a driver
 	// whose events cannot block returns "" always. The engine runs events on a watched goroutine
 	// only if Guarded() is true.
-	SelfDeadlock(stack string) string
+	SelfDeadlock(stack string) (class, detail string)
 	Guarded() bool
 }
 
@@ -229,20 +229,21 @@ func (s *strmT) kick() {
 }
 
 type world struct {
-	d        Driver
-	cfg      Cfg
-	host     types.Host
-	rm       types.ResourceManager
-	pool     types.ConnectionPool
-	conns    []*connT
-	streams  []*strmT
-	ext      int    // request slots of the cluster held by "other pools" (environment)
-	shutdown bool   // pool.Shutdown() was called
-	poisoned bool   // a stream was leased on a connection nobody reads (async pools) or an event self-deadlocked: no event can be applied safely any more
-	deadlock string // description of the self-deadlock the last event ran into
-	base     [4]int64
-	herr     string
-	lease    []finding // lease-time violations of the last event
+	d              Driver
+	cfg            Cfg
+	host           types.Host
+	rm             types.ResourceManager
+	pool           types.ConnectionPool
+	conns          []*connT
+	streams        []*strmT
+	ext            int    // request slots of the cluster held by "other pools" (environment)
+	shutdown       bool   // pool.Shutdown() was called
+	poisoned       bool   // a stream was leased on a connection nobody reads (async pools) or an event self-deadlocked: no event can be applied safely any more
+	deadlock       string // class of the self-deadlock the last event ran into
+	deadlockDetail string
+	base           [4]int64
+	herr           string
+	lease          []finding // lease-time violations of the last event
 }
 
 const waitTimeout = 20 * time.Second
@@ -590,8 +591,9 @@ func (w *world) guarded(f func()) string {
 		}
 		st := stackOf(gid)
 		if blockedOnLock(st) {
-			if d := w.d.SelfDeadlock(st); d != "" {
-				return d
+			if cls, det := w.d.SelfDeadlock(st); cls != "" {
+				w.deadlockDetail = det
+				return cls
 			}
 		}
 		if time.Since(start) > waitTimeout {
@@ -1060,7 +1062,7 @@ func runHistory(d Driver, cfg Cfg, hist []string, probe int) (res result) {
 			cls := eventClass(ev, "self-deadlock")
 			res.outcome = cls
 			res.findings = append(res.findings, finding{"pool=" + d.Name() + " " + w.deadlock + " [at " + eventClass(ev, "") + "]",
-				fmt.Sprintf("the goroutine applying event %q blocked for ever inside the pool/stream code: %s", ev, w.deadlock)})
+				fmt.Sprintf("the goroutine applying event %q blocked for ever inside the pool/stream code: %s", ev, w.deadlockDetail)})
 			res.canon = fmt.Sprintf("SELF-DEADLOCK|%s|%d", w.deadlock, len(hist)) // terminal, never merged with a live state
 			res.poisoned, res.dirty = true, true
 			w = nil // never touch (or clean up) the stuck world
